@@ -711,13 +711,18 @@ class Taylor3D(object):
             else:
                 # a little tricky: we need to *append* to an existing term
                 clmax0 = cmatch[1]
+                rtype = np.result_type(cpow, cmatch[2])  # int + float, real + complex: the sum needs the wider type
                 if blmax > clmax0:
                     # need to replace cmatch with a new tuple
+                    cpow = cpow.astype(rtype)
                     cpow[:cls.powlrange[clmax0]] += cmatch[2]
                     c[coeffindex] = (bn, blmax, cpow)
                 else:
                     # can just append in place: need to be careful, since we have a tuple
                     coeff = cmatch[2]
+                    if coeff.dtype != rtype:
+                        coeff = coeff.astype(rtype)
+                        c[coeffindex] = (cmatch[0], clmax0, coeff)
                     coeff[:cls.powlrange[blmax]] += cpow
         c.sort(key=cls.__sortkey)
         return c
